@@ -197,6 +197,7 @@ func (p *CodeBuilder) SliceLitEx(typ types.Type, arity int, keyVal bool, src ...
 		val := t.Elem()
 		n := arity >> 1
 		elts = make([]ast.Expr, n)
+		var idxs litIndices
 		for i := 0; i < arity; i += 2 {
 			arg := args[i+1]
 			if !AssignableConv(pkg, arg.Type, val, arg) {
@@ -204,7 +205,7 @@ func (p *CodeBuilder) SliceLitEx(typ types.Type, arity int, keyVal bool, src ...
 				p.panicCodeErrorf(
 					pos, end, "cannot use %s (type %v) as type %v in slice literal", src, args[i+1].Type, val)
 			}
-			elts[i>>1] = p.indexElemExpr(args, i)
+			elts[i>>1] = p.indexElemExpr(args, i, &idxs)
 		}
 	} else {
 		if arity == 0 {
@@ -247,12 +248,30 @@ func (p *CodeBuilder) SliceLitEx(typ types.Type, arity int, keyVal bool, src ...
 	return p
 }
 
-func (p *CodeBuilder) indexElemExpr(args []*internal.Elem, i int) ast.Expr {
+// litIndices tracks the indices used by the elements of an array or slice literal.
+type litIndices struct {
+	used map[int]struct{}
+	next int
+}
+
+func (p *CodeBuilder) indexElemExpr(args []*internal.Elem, i int, idxs *litIndices) ast.Expr {
 	key := args[i].Val
+	idx := idxs.next
+	if key != nil {
+		idx = p.toIntVal(args[i], "index which must be non-negative integer constant")
+	}
+	if _, dup := idxs.used[idx]; dup {
+		pos, end := getSrcPos(args[i].Src), getSrcEnd(args[i].Src)
+		p.panicCodeErrorf(pos, end, "duplicate index %d in array or slice literal", idx)
+	}
+	if idxs.used == nil {
+		idxs.used = make(map[int]struct{})
+	}
+	idxs.used[idx] = struct{}{}
+	idxs.next = idx + 1
 	if key == nil { // none
 		return args[i+1].Val
 	}
-	p.toIntVal(args[i], "index which must be non-negative integer constant")
 	return &ast.KeyValueExpr{Key: key, Value: args[i+1].Val}
 }
 
@@ -290,13 +309,14 @@ retry:
 			typ = t
 		}
 		elts = make([]ast.Expr, arity>>1)
+		var idxs litIndices
 		for i := 0; i < arity; i += 2 {
 			if !AssignableTo(pkg, args[i+1].Type, val) {
 				src, pos, end := p.loadExpr(args[i+1].Src)
 				p.panicCodeErrorf(
 					pos, end, "cannot use %s (type %v) as type %v in array literal", src, args[i+1].Type, val)
 			}
-			elts[i>>1] = p.indexElemExpr(args, i)
+			elts[i>>1] = p.indexElemExpr(args, i, &idxs)
 		}
 	} else {
 		args := p.stk.GetArgs(arity)
@@ -353,6 +373,7 @@ retry:
 			log.Panicln("StructLit: invalid arity, can't be odd in keyVal mode -", arity)
 		}
 		elts = make([]ast.Expr, arity>>1)
+		seen := make([]bool, n)
 		for i := 0; i < arity; i += 2 {
 			idx := p.toIntVal(args[i], "field which must be non-negative integer constant")
 			if idx >= n {
@@ -360,6 +381,11 @@ retry:
 			}
 			elt := t.Field(idx)
 			eltTy, eltName := elt.Type(), elt.Name()
+			if seen[idx] {
+				pos, end := getSrcPos(args[i].Src), getSrcEnd(args[i].Src)
+				p.panicCodeErrorf(pos, end, "duplicate field name %s in struct literal", eltName)
+			}
+			seen[idx] = true
 			if !AssignableTo(pkg, args[i+1].Type, eltTy) {
 				src, pos, end := p.loadExpr(args[i+1].Src)
 				p.panicCodeErrorf(
